@@ -1891,6 +1891,10 @@ namespace
     value selectrandom_array(runtime& runtime, value::cref right)
     {
         auto arr = right.data<d_array>();
+        if (arr->empty())
+        { // nothing to select from
+            return {};
+        }
         return arr->at(rand() % arr->size());
     }
     value sleep_scalar(runtime& runtime, value::cref right)
